@@ -545,7 +545,7 @@ func (x *Exec) pureResult(c *Contract, i int, args []Term, rt types.Type, st *St
 	name := fmt.Sprintf("pure_%s_%d", mangle(shortFn(c.Fn)), i)
 	vc.declareFun(name, sorts, vc.sortOf(rt))
 	r := app(vc.sortOf(rt), name, all...)
-	if changed && !dirty && vc.noName == 0 && x.top0.S != "" {
+	if changed && !dirty && x.top0.S != "" {
 		// allocation-insensitivity (as in pureCall): while no object that existed at unit entry has
 		// been written, such objects refer to entry objects only; applied to arguments that denote
 		// entry objects the function therefore reads the entry heaps.
